@@ -21,7 +21,7 @@ RULE = ("(encoder level) for every setting of ET, DT and the register-addressed 
 ASSUMPTIONS = ["values whose encoding is the type's 'no value' sentinel (Integer 65535, Voltage/Current 6553.5, Long 2^32-1) are "
                "outside the readable domain: only the write part is asserted for them",
                "ES: only the register-addressed settings (eco-mode groups and switches; 011A/0239 over AA55 for v1, Modbus for v2)"]
-MUST = ["dt_phase_pairs", "encoder_values", "e2e_writes", "e2e_readbacks", "byte_settings_rmw", "negative_values", "multi_register_writes",
+MUST = ["refused_writes", "dt_phase_pairs", "encoder_values", "e2e_writes", "e2e_readbacks", "byte_settings_rmw", "negative_values", "multi_register_writes",
         "aa55_writes", "tcp_writes", "settings_covered"]
 EXHAUSTIVE = {"quick": False, "thorough": False}
 
@@ -218,6 +218,25 @@ def e2e_part(spec, part):
                 w0 = len(sim.writes)
                 case = {"e2e": True, "spec": spec, "setting": sn.id_, "value": repr(v)}
                 part.evaluations += 1
+                if rnd.random() < 0.08 and not (fam == "ES" and sn.offset < 30000) and cls != "sentinel":
+                    # the inverter refuses this write with a Modbus exception other than ILLEGAL DATA ADDRESS: write_setting must not
+                    # report success (the premise "after write_setting succeeds" would otherwise be claimed for a write never performed)
+                    code = rnd.choice((3, 4, 6))
+                    sim.exc_map[(6, sn.offset)] = sim.exc_map[(16, sn.offset)] = code
+                    try:
+                        await inv.write_setting(sn.id_, v)
+                        refused_outcome = "returned normally"
+                    except NotImplementedError:
+                        refused_outcome = None
+                    except Exception as e:      # noqa
+                        refused_outcome = None
+                    del sim.exc_map[(6, sn.offset)], sim.exc_map[(16, sn.offset)]
+                    part.count("refused_writes")
+                    if refused_outcome and len(sim.writes) == w0:
+                        part.violate(f"C17/{fam}/refused-write-reported-as-success",
+                                     f"{tagtxt}: the inverter answered the write of '{sn.id_}' with Modbus exception {code} and stored nothing, yet "
+                                     f"write_setting('{sn.id_}', {v!r}) returned normally", case)
+                    continue
                 try:
                     await inv.write_setting(sn.id_, v)
                 except NotImplementedError:
